@@ -154,12 +154,28 @@ def run(ctx):
                                 v = ast.Compare(left=v.comparators[0], ops=[ast.Gt()], comparators=[v.left])
                             out[s_.targets[0].id] = src(v)
                     return out
-                pf, pg = pieces(mod.functions[f.id].node, "fv"), pieces(mod.functions[g.id].node, "fv")
+                def ret_names(fn):
+                    for s_ in fn.body:
+                        if isinstance(s_, ast.Return):
+                            v_ = s_.value
+                            if isinstance(v_, ast.Tuple):
+                                return [e.id if isinstance(e, ast.Name) else None for e in v_.elts]
+                            return [v_.id if isinstance(v_, ast.Name) else None]
+                    return [None]
+                fvn_f = ret_names(mod.functions[f.id].node)[0]
+                gn_names = ret_names(mod.functions[g.id].node)
+                fvn_g = gn_names[0]
+                dfvn_g = gn_names[1] if len(gn_names) > 1 else None
+
+                def canon(lst, a, b):
+                    return sorted((t.replace(a + "[", "fv[", 1) if a else t, v) for t, v in lst)
+                pf = canon(pieces(mod.functions[f.id].node, fvn_f), fvn_f, None)
+                pg = canon(pieces(mod.functions[g.id].node, fvn_g), fvn_g, None)
                 ctx.check("R03.1", key, pf == pg and masks(mod.functions[f.id].node) == masks(mod.functions[g.id].node) and bool(pf),
                           f"plain {pf} / {masks(mod.functions[f.id].node)} vs helper {pg} / {masks(mod.functions[g.id].node)}", mod.relpath, pair)
                 if sp is not None:
                     gn = mod.functions[g.id].node
-                    dpieces = dict(pieces(gn, "dfv"))
+                    dpieces = dict((t.replace(dfvn_g + "[", "dfv[", 1), v) for t, v in pieces(gn, dfvn_g)) if dfvn_g else {}
                     v_ = sp.Symbol("v", real=True)
                     okd = True
                     why = []
@@ -243,9 +259,10 @@ def run(ctx):
     cfg = cfg_of(prod)
     xn = prod.params()[1]
     mvs = [c for c in walk_no_nested(prod.node) if isinstance(c, ast.Call) and call_name(c) == "make_var"]
-    wm = [s_ for s_ in walk_no_nested(prod.node) if isinstance(s_, ast.Assign) and src(s_.targets[0]) == "wm"]
-    okk = len(mvs) == 2 and all(len(c.args) == 2 and src(c.args[1]) == "wm" for c in mvs) and len(wm) == 1 and \
-        src(wm[0].value) == f"{xn}.want_metric if lin else False"
+    wmn = src(mvs[0].args[1]) if mvs and len(mvs[0].args) == 2 else None
+    wm = [s_ for s_ in walk_no_nested(prod.node) if isinstance(s_, ast.Assign) and src(s_.targets[0]) == wmn]
+    okk = len(mvs) == 2 and all(len(c.args) == 2 and src(c.args[1]) == wmn for c in mvs) and len(wm) == 1 and \
+        isinstance(wm[0].value, ast.IfExp) and src(wm[0].value.body) == f"{xn}.want_metric" and src(wm[0].value.orelse) == "False"
     # wm must be read before x is rebound to its value
     if okk:
         rebinding = [s_ for s_ in prod.node.body if isinstance(s_, ast.Assign) and src(s_.targets[0]) == xn]
@@ -254,7 +271,10 @@ def run(ctx):
               f"{[src(c) for c in mvs]}; wm = {src(wm[0].value) if wm else None}", prod)
     rr = [r for r in walk_no_nested(prod.node) if isinstance(r, ast.Return)]
     ctx.check("R03.3", f"{prod.key}::result is built with .new() of a factor's linearization (keeps the request)",
-              any(isinstance(r.value, ast.Call) and src(r.value.func) in ("lin1.new", "lin2.new") for r in rr), None, prod)
+              any(isinstance(r.value, ast.Call) and isinstance(r.value.func, ast.Attribute) and r.value.func.attr == "new"
+                  and isinstance(r.value.func.value, ast.Name) and any(
+                      isinstance(s_, ast.Assign) and src(s_.targets[0]) == r.value.func.value.id and isinstance(s_.value, ast.Call)
+                      and src(s_.value.func) in ("self._op1", "self._op2") for s_ in walk_no_nested(prod.node)) for r in rr), None, prod)
     aos = m.func(OPM, "_OpSum._apply_operator_sum")
     xn = aos.params()[0]
     ctx.check("R03.3", f"{aos.key}::summands are linearized with the incoming want_metric",
